@@ -2,8 +2,13 @@
 base strings, known-finding signatures (predicates over a failing case)."""
 
 KIND_NAMES = {
+    1801: 'C18/blocklist: blocklist.Reload+Blocked vs Stree.reload/contains',
+    1802: 'C18/stree: stree.Contains vs Stree.build/contains',
+    1803: 'C18/addrlist: addrlist Push/Pop/Reset vs AddrList.v',
     1101: 'C11/writer: peerwriter bytes vs Wire.enc_go (+ upload counter)',
     1102: 'C11/reader: peerreader messages vs Wire.parse',
+    1103: 'C11/reader_slow: peerreader across piece timeouts vs Wire.parse',
+    1104: 'C11/roundtrip: real writer -> real reader returns the sent messages',
     701: 'C07/accept_paths: metainfo.NewInfo file paths vs Paths.accept_paths',
     702: 'C07/open_path: FileStorage.Open path vs Paths.open_path',
     703: 'C07/tar: torrent.readData vs Paths.tar_target',
@@ -27,8 +32,13 @@ TRUSTED_COMMON = [
 ]
 
 PROPS = {
+    'C18': {
+        'kinds': {1801: {'quick': 3000, 'thorough': 60000}, 1802: {'quick': 4000, 'thorough': 100000}, 1803: {'quick': 3000, 'thorough': 60000}},
+        'trusted': ['net.ParseCIDR / bufio.Scanner / bytes.TrimSpace (the model starts from parsed rules)', 'slices.Sort returns the sorted permutation'],
+        'assumptions': [],
+    },
     'C11': {
-        'kinds': {1101: {'quick': 1500, 'thorough': 30000}, 1102: {'quick': 2500, 'thorough': 60000}},
+        'kinds': {1101: {'quick': 1500, 'thorough': 30000}, 1102: {'quick': 2500, 'thorough': 60000}, 1103: {'quick': 48, 'thorough': 600}, 1104: {'quick': 1200, 'thorough': 20000}},
         'trusted': ['bufio/io.ReadFull deliver the same bytes for every chunking (the reader model works on the whole stream; chunkings are sampled)', 'zeebo/bencode struct encoding of the three extension payloads beyond sampled agreement'],
         'assumptions': [],
     },
